@@ -123,7 +123,7 @@ struct C02 : Profile {
       "ds = \"s\";\n", "while ds == \"never\" loop\n  ds = 1;\n  ds = tab(1, 2);\n  ds = true;\nend loop;\n", "print ds + \"!\";\n" };
     // operands of the static-vs-dynamic monitor: the compile-time type is known, the value is not
     st.insert(st.begin(), "ma = (-2);\nmb = 3;\nmc = 0;\nmd = (-0.5);\nme = 2.0;\nmf = 1;\nmg = 40;\nmh = 0.0;\n");
-    if (g.chance(0.4)) { if (g.chance(0.5)) for (int i = 0; i < 4; ++i) st.push_back(DEAD[i]); else for (int i = 4; i < 7; ++i) st.push_back(DEAD[i]); }
+    if (g.chance(0.3)) for (int i = 0; i < 4; ++i) st.push_back(DEAD[i]);   // (the while variant is compiled against the last type of the dead branch and is refused as a whole unit: not used)
     int ne = (int)g.range(2, 6);
     st.push_back(EXTRA[4]);   // the opaque function is declared once, in front of its uses
     for (int i = 0; i < ne; ++i) { size_t c = g.below(14); if (c == 4) continue; st.push_back(EXTRA[c]); }
